@@ -9,7 +9,7 @@ import re
 
 from harness.core import CaseResult, hit, rng_for
 
-RULE = ('every chain up to a length bound over {split, domain-split, 4 forwarding rule sets, add-date, add-message-id, '
+RULE = ('every chain up to a length bound over {split, domain-split, 5 forwarding rule sets (incl. an exemption rule that rewrites an address to itself), add-date, add-message-id, '
         'add-received, peel(custom: returns its input among its outputs)} x recipient lists (duplicates, mixed-case '
         'domains, missing/empty domains, up to 12 domains) x header sets (with/without Date, Message-Id, Received); '
         'outputs compared with the model in order; aliasing probed by identity and by mutate-one-read-others. '
@@ -19,10 +19,11 @@ BUDGET_S = {'quick': 150, 'thorough': 1500}
 
 RULESETS = {
     'F0.1': [0, 1], 'F2.3': [2, 3], 'F4': [4], 'F5.2.1': [5, 2, 1],
+    'F6.1': [6, 1],          # an exemption rule (matches, rewrites to the same address) in front of a rule that would rewrite
 }
 RULES = [(r'^a@', 'aa@', 0), (r'@x\.com$', '@fwd.example', 0), (r'^.*$', '', 0), (r'@y\.org', '@Y.ORG', 1),
-         (r'zzz', 'q', 0), (r'^(c.*)@(.*)$', r'\2@\1', 0)]
-TOKENS = ['S', 'D', 'F0.1', 'F2.3', 'F4', 'F5.2.1', 'A', 'M', 'R', 'P']
+         (r'zzz', 'q', 0), (r'^(c.*)@(.*)$', r'\2@\1', 0), (r'^(g)@(.*)$', r'\1@\2', 0)]
+TOKENS = ['S', 'D', 'F0.1', 'F2.3', 'F4', 'F5.2.1', 'F6.1', 'A', 'M', 'R', 'P']
 RCPT_POOL = ['a@x.com', 'b@X.COM', 'c@y.org', 'd@Y.org', 'noat', 'e@', 'f@z.net', 'g@x.com', 'h@d1.example', 'i@d2.example',
              'j@d3.example', 'k@d4.example', 'l@d5.example', 'm@d6.example', 'n@d7.example', 'o@d8.example', '@nolocal', 'p@q@x.com']
 HDRSETS = [
